@@ -388,6 +388,62 @@ def sweep_scenario(rng, mod, tr):
     return [dict(op='new', tr=tr, mod=mod, var={}, params=params, sweep=probes)] + ops
 
 
+# ---------------------------------------------------------------------------------------------- large lists
+ORDERED_MODS = ['flow', 'isolation', 'hotspot', 'circuitbreaker']
+
+
+def large_scenario(rng, mod, tr):
+    """(h) LARGE LISTS: 13..40 valid rules with DISTINCT parameters over 2..5 resources, several per resource, so that the order
+    inside a resource is observable: the getters must list them in load order and a request every rule of the resource objects to
+    must be refused by the FIRST one (parametric tokens P1..Pn: RuleStore!ValidRule / Verdict / Trips judge them).  One whole-set
+    load, a reload that permutes the list, per-resource loads of long lists, an identical reload."""
+    n = rng.randint(13, 40)
+    ress = ['r%d' % i for i in range(1, rng.randint(2, 5) + 1)]
+    toks = ['P%d' % i for i in range(1, n + 1)]
+    ks = rng.sample(range(2, 60), n)          # distinct thresholds
+    params = {}
+    for t, k in zip(toks, ks):
+        if mod == 'flow':
+            params[t] = dict(nores=False, tcs=0, cb=0, thr=k * 1000 + rng.choice([0, 0, 500]), rel=0, ref=False, intv=rng.choice([0, 1000, 1000, 2000, 500, 700, 5000]),
+                             wup=0, wcf=0, mq=0, lomem=0, himem=0, lowm=0, hiwm=0)
+        elif mod == 'isolation':
+            params[t] = dict(nores=False, mt=0, thr=k)
+        elif mod == 'hotspot':
+            params[t] = dict(nores=False, mt=1, cb=0, idx=0, key=True, thr=k, burst=rng.choice([0, 0, 1]), dur=1, cap=0, mq=0)
+        else:
+            params[t] = dict(nores=False, strat=2, retry=1000 + k, minreq=rng.choice([0, 1, 2]), intv=1000, bc=0, maxrt=0, thr=(k % 12 + 1) * 1000 + rng.choice([0, 0, -500]), probenum=0)
+    lst = [[t, rng.choice(ress)] for t in toks]
+    lst[1][1] = lst[0][1]                     # at least two rules share a resource
+    ops = [dict(op='load', scope='*', list=lst)]
+    perm = [list(x) for x in lst]
+    rng.shuffle(perm)
+    ops.append(dict(op='load', scope='*', list=perm))                       # the same rules in another order
+    r = lst[0][1]
+    mine = [list(x) for x in perm if x[1] == r]
+    x = rng.random()
+    if x < 0.5:        # a long per-resource list: every rule on one resource, permuted once more
+        allr = [[t, r] for t in toks]
+        rng.shuffle(allr)
+        ops.append(dict(op='load', scope=r, list=allr))
+    elif x < 0.8:
+        rng.shuffle(mine)
+        ops.append(dict(op='load', scope=r, list=mine))
+    if rng.random() < 0.4:
+        ops.append(json.loads(json.dumps(ops[-1])))                         # identical reload
+    if rng.random() < 0.5:
+        rng.shuffle(ops)                                                   # the permuted / per-resource load may come first
+    env = dict(load=0, cpu=0, mem=0)
+    if mod == 'circuitbreaker':
+        probes = [dict(kind='trip', n=14, fails=14, rt=0), dict(kind='trip', n=rng.randint(2, 12), fails=rng.randint(1, 12), rt=0)]
+        probes[1]['fails'] = min(probes[1]['fails'], probes[1]['n'])
+    elif mod == 'hotspot':       # a hotspot rule reads ITS OWN key: order is observable through the getters; two rules are probed
+        probes = [dict(kind='req', tok=t, env=env, bs=[params[t]['thr'] + params[t]['burst'], 1]) for t in rng.sample(toks, 2)]
+    else:                        # more than every threshold: the FIRST rule of the resource must be named; then about the median
+        probes = [dict(kind='req', tok='P1', env=env, bs=[100]), dict(kind='req', tok='P1', env=env, bs=[rng.randint(3, 59)]),
+                  dict(kind='req', tok='P1', env=env, bs=[rng.randint(1, 30), rng.randint(1, 30)])]
+    return [dict(op='new', tr=tr, mod=mod, var={}, res=ress, params=params, sweep=probes)] + ops
+
+
 def near_reloads(s):
     """{(base, delta index)} of the variants that take part in a reload old -> near-equal new (same resource, same base
     token, different rule) in scenario s"""
@@ -793,6 +849,10 @@ def check(c, tier, replay):
     # a controller derivation that fails for some VALID rules (naiveSampleCount = seeded change C13-e: sample count = interval /
     # bucket length without the "is a multiple" guard; keepBucketCount: a breaker bucket count that does not divide the interval
     # is kept) drops those rules: the store-level invariant alone must see it
+    r = c.tlc('RuleStore_MC', cfg_text=mc_cfg('MCDescs1', ['r1', 'r2'], ['R1', 'R1a', 'I1'], 2, mutant='unstableGroup', invs='EnforcedIsLatestValid'), workers=4, timeout=600, count=False)
+    if r.violated != 'EnforcedIsLatestValid':       # a grouping that does not keep the order inside a resource (= seeded change C13-g)
+        raise MachineryError('vacuity self-test: spec mutant unstableGroup is not caught by TLC (%s)' % (r.error or r.violated))
+    caught['unstableGroup'] = r.violated
     for mut in ['naiveSampleCount', 'keepBucketCount']:
         r = c.tlc('RuleStore_MC', cfg_text=mc_cfg('MCSweep', ['r1'], ['P1', 'P2'], 1, mutant=mut, invs='EnforcedIsLatestValid'), workers=4, timeout=600, count=False)
         if r.violated != 'EnforcedIsLatestValid':
@@ -885,6 +945,13 @@ def check(c, tier, replay):
         for _ in range(170 if not thorough else 2500):
             tr += 1
             swp.append(sweep_scenario(c.rng, mod, tr))
+    # (h) large lists: 13..40 valid rules with distinct parameters over 2..5 resources, order observable
+    nlarge = 0
+    for mod in ORDERED_MODS:
+        for _ in range(40 if not thorough else 400):
+            tr += 1
+            nlarge += 1
+            swp.append(large_scenario(c.rng, mod, tr))
     # S3 + S4 ----------------------------------------------------------------------------
     first, first_sweep = True, True
     for tag, group in (('tlc', scns), ('sim', sim), ('rnd', rnd), ('pat', pat), ('ntlc', nscns), ('npat', npat), ('nrnd', nrnd), ('sweep', swp)):
@@ -905,6 +972,11 @@ def check(c, tier, replay):
     # parameter sweep: what was drawn (a record counts when its token is loaded at least once)
     loaded = [(s[0]['mod'], s[0]['params'][t]) for s in swp for t in sorted({t for o in s[1:] for t, _ in o['list'] if t in s[0]['params']})]
     fi = sorted({r['intv'] for m, r in loaded if m == 'flow' and (r['cb'] == 0 or r['tcs'] == 1)})
+    big = [s for s in swp if 'res' in s[0]]
+    c.cov['large_lists'] = dict(scenarios=len(big), longest_list=max(len(o['list']) for s in big for o in s[1:]),
+                                whole_set_loads_of_more_than_12=sum(1 for s in big for o in s[1:] if o['scope'] == '*' and len(o['list']) > 12),
+                                per_resource_loads_of_more_than_12=sum(1 for s in big for o in s[1:] if o['scope'] != '*' and len(o['list']) > 12),
+                                most_rules_on_one_resource=max(max(sum(1 for _, r in o['list'] if r == x) for x in s[0]['res']) for s in big for o in s[1:]))
     c.cov['parameter_sweep'] = dict(
         scenarios=len(swp), rule_records_loaded=len(loaded), distinct_rule_records=len({m + json.dumps(r, sort_keys=True) for m, r in loaded}),
         probes=sum(len(s[0]['sweep']) for s in swp), per_module={m: sum(1 for x, _ in loaded if x == m) for m in MODS},
